@@ -21,7 +21,7 @@ import math
 import sys
 from pathlib import Path
 
-from common import REPO, VERIF, Check, use_repo
+from common import REPO, VERIF, Check, InfraError, use_repo
 
 sys.path.insert(0, str(VERIF / "harness" / "translators"))
 import tr_datatype  # noqa: E402
@@ -104,6 +104,17 @@ class Runner:
                 impl = None
         self.cache[key] = impl
         return impl
+
+    def sum_pair(self, relation, a, parts, bucket, key):
+        """value(a) must equal the sum of the values of `parts`"""
+        va = self.value(a)
+        vs = [self.value(p, lean=False) for p in parts]
+        tot = None if any(v is None for v in vs) else math.fsum(vs)
+        ok = close(va, tot, TOL_PAIR * max(1, len(parts)))
+        self.ck.case(key=(relation,) + tuple(key), bucket=bucket + "/" + relation, nontrivial=va is not None and math.isfinite(va),
+                     sample=None)
+        if not ok:
+            self.failures.append({"relation": relation, "factor": 1.0, "a": a, "b": parts[0], "parts": parts, "value_a": va, "value_b": tot})
 
     def pair(self, relation, a, b, bucket, key, factor=1.0, lean_b=True):
         va = self.value(a)
@@ -215,6 +226,63 @@ def lean_likn(run, case, bucket):
         run.ck.mismatch("name-based likN differs from the index-addressed loop", {"case": case, "likN": got, "loop": out["site_liks"]})
 
 
+MISSING_SYMS = "-?NnRYMWSKBDHVrykb"
+
+
+def state_coincidence(run: Runner, rng, tree, names, base, bucket):
+    """columns that DIFFER as symbols but COINCIDE as states when ambiguous = missing ('-' / '?' / 'N' / 'R' …, lower vs
+    upper case, 'U' vs 'T'), in otherwise identical columns, several of them with different multiplicities.  With tip
+    states, or tip partials without ambiguities, the value must equal that of the canonically rewritten alignment, of
+    any column permutation, and the SUM of the single-column likelihoods (a merged pattern carries the sum of the
+    weights of its source columns)."""
+    n = len(names)
+    taxa0 = rng.sample(names, n)
+    seq0 = rng.sample(names, n)
+    canon_cols, sym_cols = [], []
+    for _ in range(rng.randint(2, 3)):
+        b = rng.choice("ACGT")
+        ccol = [rng.choice([b, b, rng.choice("ACGT"), "-"]) for _ in names]
+        if "-" not in ccol:
+            ccol[rng.randrange(n)] = "-"
+        if "T" not in ccol and rng.random() < 0.5:
+            ccol[rng.randrange(n)] = "T"
+        for _v in range(rng.randint(2, 4)):  # symbol variants of the same state column
+            vcol = []
+            for c in ccol:
+                if c == "-":
+                    vcol.append(rng.choice(MISSING_SYMS))
+                elif c == "T":
+                    vcol.append(rng.choice("TtUu"))
+                else:
+                    vcol.append(rng.choice([c, c.lower()]))
+            m = rng.choice([1, 1, 2, 3, 5])
+            sym_cols += [vcol] * m
+            canon_cols += [ccol] * m
+    order = list(range(len(sym_cols)))
+    rng.shuffle(order)
+    sym_cols = [sym_cols[i] for i in order]
+    canon_cols = [canon_cols[i] for i in order]
+
+    def seqs_of(cols):
+        return {nm: "".join(c[i] for c in cols) for i, nm in enumerate(names)}
+
+    kid = (G.newick(tree, lengths=False), base["subst"]["kind"], base["rooting"], "".join("".join(c) for c in sym_cols))
+    for label, ts, ua in (("tip-states", True, rng.choice([None, False, True])), ("partials-no-ambiguities", False, rng.choice([None, False]))):
+        b2 = dict(base, use_tip_states=ts, use_ambiguities=ua)
+        a = G.materialise(tree, taxa0, seq0, seqs_of(sym_cols), b2)
+        run.pair(f"state-coincidence/{label}", a, G.materialise(tree, taxa0, seq0, seqs_of(canon_cols), b2), bucket, kid)
+        perm = list(range(len(sym_cols)))
+        rng.shuffle(perm)
+        run.pair(f"state-coincidence-perm-columns/{label}", a,
+                 G.materialise(tree, taxa0, seq0, seqs_of([sym_cols[i] for i in perm]), b2), bucket, kid + (tuple(perm),))
+        singles = [G.materialise(tree, taxa0, seq0, seqs_of([c]), b2) for c in sym_cols]
+        run.sum_pair(f"sum-of-single-columns/{label}", a, singles, bucket, kid)
+    # tip states against tip partials on the very same symbols
+    run.pair("state-coincidence/states-vs-partials",
+             G.materialise(tree, taxa0, seq0, seqs_of(sym_cols), dict(base, use_tip_states=True, use_ambiguities=None)),
+             G.materialise(tree, taxa0, seq0, seqs_of(sym_cols), dict(base, use_tip_states=False, use_ambiguities=False)), bucket, kid)
+
+
 def variants(run: Runner, rng, tree, names, seqs, base, bucket, exhaustive):
     """all rewritings of one base case"""
     n = len(names)
@@ -225,9 +293,16 @@ def variants(run: Runner, rng, tree, names, seqs, base, bucket, exhaustive):
     ref = G.materialise(tree, taxa0, seq0, seqs, base)
     kid = (G.newick(tree, lengths=False), base["subst"]["kind"], base["site"]["kind"], base["rooting"])
     if run.drv:
-        if base["rooting"] == "unrooted":
-            lean_rootings(run, tree, bucket)
-        lean_likn(run, ref, bucket)
+        try:
+            if base["rooting"] == "unrooted":
+                lean_rootings(run, tree, bucket)
+            lean_likn(run, ref, bucket)
+        except InfraError:
+            raise
+        except Exception as e:  # noqa: BLE001
+            run.ck.mismatch("implementation returned something the harness could not interpret", {"case": ref, "error": repr(e)[:300]})
+    if base["datatype"] == "nucleotide":
+        state_coincidence(run, rng, tree, names, base, bucket)
     # --- taxa order
     perms = list(itertools.permutations(names)) if exhaustive else [tuple(rng.sample(names, n)) for _ in range(3)]
     for p in perms:
@@ -275,6 +350,18 @@ def variants(run: Runner, rng, tree, names, seqs, base, bucket, exhaustive):
             run.pair("reroot", ref, G.materialise(t3, taxa0, seq0, seqs, base), bucket, (kid, "root", i), lean_b=rng.random() < 0.3)
 
 
+def variants_guarded(run_, rng, tree, names, seqs, base, bucket, exhaustive):
+    try:
+        variants(run_, rng, tree, names, seqs, base, bucket, exhaustive)
+    except InfraError:
+        raise
+    except Exception as e:  # noqa: BLE001
+        import traceback
+
+        run_.ck.mismatch("rewritings of a base case could not be evaluated",
+                         {"newick": G.newick(tree), "base": base, "error": repr(e)[:300], "where": traceback.format_exc()[-600:]})
+
+
 def run(ck: Check):
     torch = c01.setup_torch()
     ck.rule = (
@@ -306,27 +393,32 @@ def run(ck: Check):
     try:
         cdir = VERIF / "corpus" / "C02"
         for f in sorted(cdir.glob("*.json")) if cdir.exists() else []:
-            obj = json.loads(f.read_text())
-            run_.pair(obj["relation"], obj["a"], obj["b"], "corpus", (f.name,), factor=obj.get("factor", 1.0))
+            try:
+                obj = json.loads(f.read_text())
+                run_.pair(obj["relation"], obj["a"], obj["b"], "corpus", (f.name,), factor=obj.get("factor", 1.0))
+            except InfraError:
+                raise
+            except Exception as e:  # noqa: BLE001
+                ck.mismatch("corpus pair could not be evaluated", {"file": f.name, "error": repr(e)[:300]})
         # exhaustive: every permutation / swap subset / rooting for small trees
         for n in ([3, 4, 5] if thorough else [3, 4]):
             for rep in range((12 if n == 3 else (8 if n == 4 else 4)) if thorough else (8 if n == 3 else 6)):
                 tree, names, seqs, base = gen_base(rng, n, reversible=(rep % 2 == 0), rooting="unrooted" if rep % 2 == 0 else None)
-                variants(run_, rng, tree, names, seqs, base, f"exhaustive/{n}", exhaustive=True)
+                variants_guarded(run_, rng, tree, names, seqs, base, f"exhaustive/{n}", exhaustive=True)
         # amino-acid / codon alphabets
         for subst in (["LG", "WAG", "MG94"] * 3 if thorough else ["LG", "WAG", "MG94"]):
             tree, names, seqs, base = gen_base(rng, 3 if subst == "MG94" else 4, subst=subst)
-            variants(run_, rng, tree, names, seqs, base, "alphabets", exhaustive=False)
+            variants_guarded(run_, rng, tree, names, seqs, base, "alphabets", exhaustive=False)
         # random beyond
         for _ in range(200 if thorough else 30):
             n = rng.choice([5, 6, 7, 8, 10, 14]) if thorough else rng.choice([5, 6, 7, 8])
             tree, names, seqs, base = gen_base(rng, n)
-            variants(run_, rng, tree, names, seqs, base, "random", exhaustive=False)
+            variants_guarded(run_, rng, tree, names, seqs, base, "random", exhaustive=False)
         # all rootings of larger unrooted trees, reversible
         for _ in range(40 if thorough else 8):
             n = rng.choice([6, 7, 8, 12, 20]) if thorough else rng.choice([6, 7, 8, 12])
             tree, names, seqs, base = gen_base(rng, n, reversible=True, rooting="unrooted")
-            variants(run_, rng, tree, names, seqs, base, "rootings", exhaustive=False)
+            variants_guarded(run_, rng, tree, names, seqs, base, "rootings", exhaustive=False)
     finally:
         if drv:
             drv.close()
@@ -366,6 +458,12 @@ def replay(path: str) -> int:
         except Exception as e:  # noqa: BLE001
             print("implementation raised:", repr(e))
             vals.append(None)
+    if f.get("parts"):
+        try:
+            vals[1] = math.fsum(c01.impl_value(G.build_model(c)) for c in f["parts"])
+        except Exception as e:  # noqa: BLE001
+            print("implementation raised on a single-column alignment:", repr(e))
+            vals[1] = None
     bad = not close(vals[0] * f.get("factor", 1.0) if vals[0] is not None else None, vals[1], TOL_PAIR)
     print(f"relation {f['relation']}: a -> {vals[0]!r} (x{f.get('factor', 1.0)}), b -> {vals[1]!r}; {'VIOLATES' if bad else 'ok'}")
     return 1 if bad else 0
